@@ -332,7 +332,7 @@ Lemma instant_rel c used used' dls a st tau t o a1 s1 s' kept granted refused re
   (forall x, In x (waiting st) -> (t <= wdl x)%Z) ->
   drained c t s1 s' kept granted refused -> Permutation rets (rets_lists granted refused) ->
   (granted <> [] -> mle (held s') (cap s1)) -> inv c s' ->
-  (forall x, In x (waiting s1 ++ woken s1) -> In (wid x) used' /\ In (wdl x) dls) ->
+  (forall x, In x (waiting s1 ++ kept) -> In (wid x) used' /\ In (wdl x) dls) ->
   exists a', accept_step a (mkIR t o rets) = Some a' /\ rel c used' dls a' s' t.
 Proof.
   intros R Ht Eop Eh Ec Ec0 Pp Hnd Hw Hov D Pr Hfit Hinv' Hused.
@@ -355,9 +355,7 @@ Proof.
       * destruct (D8 x Hx) as (H1 & H2 & _). auto.
     + intros x Hx. rewrite D2 in Hx. apply in_app_iff in Hx. destruct Hx as [Hx|Hx]; [apply Hw, Hx | apply D8, Hx].
     + rewrite El'. lia.
-    + intros x Hx. apply Hused. rewrite D2 in Hx. apply in_app_iff in Hx. apply in_app_iff.
-      destruct Hx as [Hx|Hx]; [left; exact Hx | right].
-      eapply Permutation_in; [exact D4|]. apply in_app_iff. left. exact Hx.
+    + intros x Hx. apply Hused. rewrite D2 in Hx. exact Hx.
 Qed.
 
 (* ---------- timer instants ---------- *)
@@ -396,8 +394,9 @@ Proof.
     by (rewrite Ewt; intros y []).
   assert (P8 : forall y, In y (waiting st) -> (wdl x <= wdl y)%Z) by (intros y Hy; apply Hmin, Hy).
   assert (P9 : Permutation (rets_of (snd s1)) (rets_lists granted refused)) by (rewrite Eob; exact Pob).
-  assert (P10 : forall y, In y (waiting (fst (fst s0)) ++ woken (fst (fst s0))) -> In (wid y) used /\ In (wdl y) dls)
-    by (rewrite Ewt, Ew; cbn [app]; apply (r_used _ _ _ _ _ _ R)).
+  assert (P10 : forall y, In y (waiting (fst (fst s0)) ++ kept) -> In (wid y) used /\ In (wdl y) dls).
+  { rewrite Ewt. cbn [app]. intros y Hy. apply (r_used _ _ _ _ _ _ R). rewrite <- Ew.
+    eapply Permutation_in; [exact (dr_perm _ _ _ _ _ _ _ D)|]. apply in_app_iff. left. exact Hy. }
   destruct (instant_rel c used used dls a st tau (wdl x) None a (fst (fst s0)) (fst (fst s1)) kept granted refused (rets_of (snd s1))
               R P1 P2 P3 P4 (r_cap0 _ _ _ _ _ _ R) P5 P6 P7 P8 D P9 Hfit Hinv' P10) as (a' & Ea & R').
   exists a'. split; [exact Ea|]. split; [exact R'|].
@@ -438,4 +437,257 @@ Proof.
   assert (HxT : (wdl x <= T)%Z) by lia.
   assert (Hxq : (tau < wdl x)%Z) by (apply (r_quiet _ _ _ _ _ _ R); exact Hx).
   destruct (Hb HxT Hgrid). lia.
+Qed.
+
+(* ---------- scripted-call instants ---------- *)
+
+Lemma nodup_snoc {A} (l : list A) x : NoDup l -> ~ In x l -> NoDup (l ++ [x]).
+Proof.
+  induction l as [|a l IH]; cbn [app]; intros Hn Hx.
+  - constructor; [intros [] | constructor].
+  - inversion Hn as [|? ? Hni Hn']; subst. constructor.
+    + rewrite in_app_iff. intros [H | [H | []]]; [contradiction | subst; apply Hx; left; reflexivity].
+    + apply IH; [exact Hn' | intros H; apply Hx; right; exact H].
+Qed.
+
+Lemma drain_all_nil prefer s now : woken (fst (fst s)) = [] -> drain_all true prefer s now = s.
+Proof. intros H. unfold drain_all. rewrite H. reflexivity. Qed.
+
+Lemma trivial_drained c t st : inv c st -> woken st = [] -> drained c t st st [] [] [].
+Proof.
+  intros Hinv Hw. constructor; cbn [app]; auto.
+  - now rewrite app_nil_r.
+  - rewrite Hw. constructor.
+  - destruct Hinv as (_ & H & _). exact H.
+  - intros x [].
+  - intros x [].
+Qed.
+
+Lemma meqb_refl m : meqb m m = true.
+Proof. unfold meqb. rewrite !N.eqb_refl. reflexivity. Qed.
+
+Definition sop_wf (op : sop) : Prop :=
+  match op with SAcq _ w _ | STry w | SRel w => m_wf w | _ => True end.
+
+Lemma rel_weaken_used c used used' dls a st tau :
+  (forall i, In i used -> In i used') -> rel c used dls a st tau -> rel c used' dls a st tau.
+Proof.
+  intros H R. destruct R. constructor; auto. intros x Hx. destruct (r_used0 x Hx). auto.
+Qed.
+
+Lemma sim_step_eq s now ev st' o :
+  step true (fst (fst s)) now ev = (st', o) ->
+  sim_step true (clear_ob s) now ev = (st', (now, ev) :: snd (fst s), rev (flat_map (obs_of now) o)).
+Proof.
+  destruct s as [[st tr] ob]. unfold clear_ob. cbn [fst snd]. intros E. unfold sim_step. rewrite E. now rewrite app_nil_r.
+Qed.
+
+Lemma broadcast_instant c used dls prefer a s tau now ev st1 o opo a1 :
+  rel c used dls a (fst (fst s)) tau -> (tau < now)%Z ->
+  (forall x, In x (waiting (fst (fst s))) -> (now < wdl x)%Z) ->
+  step true (fst (fst s)) now ev = (st1, o) -> inv c st1 ->
+  waiting st1 = [] -> woken st1 = waiting (fst (fst s)) -> rets_of (rev (flat_map (obs_of now) o)) = [] ->
+  accept_op a now opo = Some a1 -> a_held a1 = held st1 -> a_cap a1 = cap st1 -> a_cap0 a1 = c -> a_pend a1 = a_pend a ->
+  let s2 := drain_all true prefer (sim_step true (clear_ob s) now ev) now in
+  exists a', accept_step a (mkIR now opo (rets_of (snd s2))) = Some a' /\ rel c used dls a' (fst (fst s2)) now.
+Proof.
+  intros R Ht Hq Estep Hinv1 Ew1 Ek1 Eo Pop Ph Pc Pc0 Ppend. cbn zeta.
+  rewrite (sim_step_eq s now ev st1 o Estep).
+  set (s0 := (st1, (now, ev) :: snd (fst s), rev (flat_map (obs_of now) o))).
+  unfold drain_all.
+  destruct (drain_full c prefer now (length (woken (fst (fst s0)))) s0 Hinv1 (le_n _))
+    as (Hinv' & kept & granted & refused & delta & D & Eob & Pob & Hfit).
+  set (s2 := drain true prefer (length (woken (fst (fst s0)))) s0 now) in *.
+  unfold s0 in Eob, D, Hfit. cbn [fst snd] in Eob, D, Hfit.
+  assert (Prets : Permutation (rets_of (snd s2)) (rets_lists granted refused))
+    by (rewrite Eob, rets_of_app, Eo, app_nil_r; exact Pob).
+  assert (Pp : Permutation (a_pend a1) (waiting st1 ++ woken st1))
+    by (rewrite Ppend, Ew1, Ek1; cbn [app]; apply R).
+  assert (Pnd : NoDup (map wid (a_pend a1))).
+  { rewrite Ppend. eapply Permutation_NoDup; [apply Permutation_sym, Permutation_map, (r_pend _ _ _ _ _ _ R) | apply (r_nodup _ _ _ _ _ _ R)]. }
+  assert (PW : forall y, In y (waiting st1) ->
+            fitsb (held st1) (ww y) (cap st1) = false /\ exceedsb (ww y) (cap st1) = false /\ (now < wdl y)%Z)
+    by (rewrite Ew1; intros y []).
+  assert (Hov : forall x, In x (waiting (fst (fst s))) -> (now <= wdl x)%Z) by (intros x Hx; specialize (Hq x Hx); lia).
+  assert (Pu : forall y, In y (waiting st1 ++ kept) -> In (wid y) used /\ In (wdl y) dls).
+  { rewrite Ew1. cbn [app]. intros y Hy. apply (r_used _ _ _ _ _ _ R). rewrite <- Ek1.
+    eapply Permutation_in; [exact (dr_perm _ _ _ _ _ _ _ D)|]. apply in_app_iff. left. exact Hy. }
+  exact (instant_rel c used used dls a (fst (fst s)) tau now opo a1 st1 (fst (fst s2)) kept granted refused (rets_of (snd s2))
+           R Ht Pop Ph Pc Pc0 Pp Pnd PW Hov D Prets Hfit Hinv' Pu).
+Qed.
+
+Lemma op_instant c used dls prefer a s tau now op :
+  rel c used dls a (fst (fst s)) tau -> (tau < now)%Z ->
+  (forall x, In x (waiting (fst (fst s))) -> (now < wdl x)%Z) ->
+  sop_wf op ->
+  match op with SAcq id w timeout => ~ In id used /\ ((0 < timeout)%Z -> In (now + timeout)%Z dls) | _ => True end ->
+  let used' := match op with SAcq id _ _ => id :: used | _ => used end in
+  let st := fst (fst s) in
+  match op_event now op with
+  | None => exists a', accept_step a (mkIR now (Some (op, OProcB (held st))) []) = Some a' /\ rel c used' dls a' st now
+  | Some ev =>
+    let o := snd (step true st now ev) in
+    let s2 := drain_all true prefer (sim_step true (clear_ob s) now ev) now in
+    exists a', accept_step a (mkIR now (Some (op, op_obs op o)) (rets_of (snd s2))) = Some a' /\
+               rel c used' dls a' (fst (fst s2)) now
+  end.
+Proof.
+  intros R Ht Hq Hwf Hfresh. cbn zeta. set (st := fst (fst s)) in *.
+  pose proof (r_inv _ _ _ _ _ _ R) as Hinv. pose proof (r_woken _ _ _ _ _ _ R) as Hwk.
+  pose proof (cap_wf _ _ Hinv) as Hcw.
+  assert (Hhw : m_wf (held st)) by (destruct Hinv as (Hc & Hle & _); exact (mle_wf _ _ Hc Hle)).
+  assert (Hnd0 : NoDup (map wid (a_pend a)))
+    by (eapply Permutation_NoDup; [apply Permutation_sym, Permutation_map, (r_pend _ _ _ _ _ _ R) | apply (r_nodup _ _ _ _ _ _ R)]).
+  assert (Hov : forall x, In x (waiting st) -> (now <= wdl x)%Z) by (intros x Hx; specialize (Hq x Hx); lia).
+  assert (HW : forall h, mle (held st) h -> forall x, In x (waiting st) ->
+            fitsb h (ww x) (cap st) = false /\ exceedsb (ww x) (cap st) = false /\ (now < wdl x)%Z).
+  { intros h Hle x Hx. destruct (r_nofit _ _ _ _ _ _ R x Hx) as [H1 H2].
+    split; [eapply fitsb_false_mono; eauto | split; [exact H2 | apply Hq, Hx]]. }
+  assert (Hu : forall x, In x (waiting st) -> In (wid x) used /\ In (wdl x) dls) by apply (r_used _ _ _ _ _ _ R).
+  (* the shape of an instant whose first event wakes nobody *)
+  assert (Hquiet : forall ev st' o, step true st now ev = (st', o) -> woken st' = [] ->
+            drain_all true prefer (sim_step true (clear_ob s) now ev) now
+            = (st', (now, ev) :: snd (fst s), rev (flat_map (obs_of now) o))).
+  { intros ev st' o E Hw'. rewrite (sim_step_eq s now ev st' o E). apply drain_all_nil. exact Hw'. }
+  destruct op as [id w timeout | w | w | | ]; cbn [op_event op_obs].
+  - (* Acquire *)
+    cbn [sop_wf] in Hwf. destruct Hfresh as [Hfr Hdl].
+    set (x := mkW id w (now + timeout)%Z).
+    assert (Hx : m_wf (ww x)) by exact Hwf.
+    assert (Estep : step true st now (ECall id w now timeout) = loop_body true st now x) by reflexivity.
+    rewrite (loop_body_decide c st now x Hinv Hx) in Estep. unfold decide in Estep. cbn [ww wdl wid x] in Estep.
+    set (s1 := mkS (held st) (cap st) (waiting st) [x]).
+    assert (Ha1 : accept_op a now (Some (SAcq id w timeout, ONoObs)) =
+                  Some (mkAS (a_held a) (a_cap0 a) (a_cap a) (a_pend a ++ [x]) (a_last a))) by reflexivity.
+    assert (Pp1 : Permutation (a_pend a ++ [x]) (waiting s1 ++ woken s1))
+      by (unfold s1; cbn [waiting woken]; apply Permutation_app_tail, (r_pend _ _ _ _ _ _ R)).
+    assert (Hnd1 : NoDup (map wid (a_pend a ++ [x]))).
+    { rewrite map_app. cbn [map wid x]. apply nodup_snoc; [exact Hnd0|]. intros Hin.
+      apply Hfr. apply in_map_iff in Hin. destruct Hin as (y & Hy1 & Hy2).
+      apply (Permutation_in _ (r_pend _ _ _ _ _ _ R)) in Hy2. rewrite <- Hy1. apply Hu, Hy2. }
+    assert (Hinv' : inv c (fst (step true st now (ECall id w now timeout)))) by (apply inv_step; assumption).
+    assert (HW1 : forall y, In y (waiting s1) ->
+              fitsb (held s1) (ww y) (cap s1) = false /\ exceedsb (ww y) (cap s1) = false /\ (now < wdl y)%Z)
+      by (unfold s1; cbn [waiting held cap]; apply HW, mle_refl).
+    assert (Hused1 : forall kept, (forall y, In y kept -> y = x /\ (now < wdl x)%Z) ->
+               forall y, In y (waiting s1 ++ kept) -> In (wid y) (id :: used) /\ In (wdl y) dls).
+    { intros kept Hk y Hy. unfold s1 in Hy. cbn [waiting] in Hy. apply in_app_iff in Hy. destruct Hy as [Hy|Hy].
+      - destruct (Hu y Hy). split; [right|]; assumption.
+      - destruct (Hk y Hy) as [-> Hlt]. split; [left; reflexivity|]. apply Hdl. cbn [wdl x] in Hlt. lia. }
+    destruct (fitsb (held st) w (cap st)) eqn:Ef; [|destruct (exceedsb w (cap st) || (now + timeout <=? now)%Z) eqn:Ee];
+      rewrite Estep in Hinv'; cbn [fst snd] in Hinv';
+      (rewrite (Hquiet _ _ _ Estep) by (cbn [woken]; exact Hwk)); cbn [fst snd rets_of flat_map obs_of rev app].
+    + eapply (instant_rel c used (id :: used) dls a st tau now _ _ s1 _ [] [x] [] [(id, true)] R Ht Ha1);
+        cbn [a_held a_cap a_cap0 a_pend]; try (apply R); try assumption.
+      * constructor; cbn [woken waiting held cap app s1]; auto.
+        -- now rewrite app_nil_r.
+        -- destruct Hinv' as (_ & H & _). exact H.
+        -- intros y []. -- intros y [].
+      * apply Permutation_refl.
+      * intros _. cbn [held cap s1]. apply fitsb_spec in Ef. destruct Ef. unfold mle, mplus. cbn. lia.
+      * apply Hused1. intros y [].
+    + eapply (instant_rel c used (id :: used) dls a st tau now _ _ s1 _ [] [] [x] [(id, false)] R Ht Ha1);
+        cbn [a_held a_cap a_cap0 a_pend]; try (apply R); try assumption.
+      * constructor; cbn [woken waiting held cap app s1]; auto.
+        -- now rewrite app_nil_r.
+        -- destruct Hinv' as (_ & H & _). exact H.
+        -- intros y [<-|[]]. cbn [ww wdl x]. split; [exact Ef|]. apply orb_true_iff in Ee. destruct Ee as [Ee|Ee]; [left; exact Ee | right; lia].
+        -- intros y [].
+      * apply Permutation_refl.
+      * intros H. now contradiction H.
+      * apply Hused1. intros y [].
+    + apply orb_false_iff in Ee. destruct Ee as [Ee1 Ee2].
+      eapply (instant_rel c used (id :: used) dls a st tau now _ _ s1 _ [x] [] [] [] R Ht Ha1);
+        cbn [a_held a_cap a_cap0 a_pend]; try (apply R); try assumption.
+      * constructor; cbn [woken waiting held cap app s1]; auto.
+        -- destruct Hinv' as (_ & H & _). exact H.
+        -- intros y [].
+        -- intros y [<-|[]]. cbn [ww wdl x]. split; [exact Ef|]. split; [exact Ee1 | lia].
+      * apply Permutation_refl.
+      * intros H. now contradiction H.
+      * apply Hused1. intros y [<-|[]]. split; [reflexivity | cbn [wdl x]; lia].
+  - (* TryAcquire *)
+    cbn [sop_wf] in Hwf.
+    assert (Estep : step true st now (ETry w) =
+              if fitsb (held st) w (cap st)
+              then (mkS (mplus (held st) w) (cap st) (waiting st) (woken st), [OTry true]) else (st, [OTry false])).
+    { cbn [step]. rewrite (try_acquire_exact _ _ _ Hhw Hwf Hcw). destruct (fitsb (held st) w (cap st)); reflexivity. }
+    assert (Hinv1 : inv c (fst (step true st now (ETry w)))) by (apply inv_step; assumption).
+    destruct (fitsb (held st) w (cap st)) eqn:Ef; rewrite Estep in Hinv1 |- *; cbn [fst snd] in Hinv1 |- *;
+      (rewrite (Hquiet _ _ _ Estep) by (cbn [woken]; exact Hwk)); cbn [fst snd rets_of flat_map obs_of rev app].
+    + set (s1 := mkS (mplus (held st) w) (cap st) (waiting st) (woken st)) in *.
+      assert (Pop : accept_op a now (Some (STry w, OTryB true)) =
+                    Some (mkAS (mplus (a_held a) w) (a_cap0 a) (a_cap a) (a_pend a) (a_last a)))
+        by (cbn [accept_op]; rewrite (r_held _ _ _ _ _ _ R), (r_cap _ _ _ _ _ _ R), Ef; reflexivity).
+      assert (Pp : Permutation (a_pend a) (waiting s1 ++ woken s1))
+        by (unfold s1; cbn [waiting woken]; rewrite Hwk, app_nil_r; apply R).
+      assert (PW : forall y, In y (waiting s1) ->
+                fitsb (held s1) (ww y) (cap s1) = false /\ exceedsb (ww y) (cap s1) = false /\ (now < wdl y)%Z)
+        by (unfold s1; cbn [waiting held cap]; apply HW, mle_mplus).
+      assert (Pu : forall y, In y (waiting s1 ++ []) -> In (wid y) used /\ In (wdl y) dls)
+        by (unfold s1; cbn [waiting]; rewrite app_nil_r; exact Hu).
+      refine (instant_rel c used used dls a st tau now _ _ s1 s1 [] [] [] [] R Ht Pop _ _ (r_cap0 _ _ _ _ _ _ R)
+                Pp Hnd0 PW Hov (trivial_drained c now s1 Hinv1 Hwk) (Permutation_refl _) _ Hinv1 Pu).
+      * cbn [a_held]. unfold s1. cbn [held]. now rewrite (r_held _ _ _ _ _ _ R).
+      * cbn [a_cap]. apply R.
+      * intros H. now contradiction H.
+    + assert (Pop : accept_op a now (Some (STry w, OTryB false)) =
+                    Some (mkAS (a_held a) (a_cap0 a) (a_cap a) (a_pend a) (a_last a)))
+        by (cbn [accept_op]; rewrite (r_held _ _ _ _ _ _ R), (r_cap _ _ _ _ _ _ R), Ef; reflexivity).
+      assert (Pp : Permutation (a_pend a) (waiting st ++ woken st)) by (rewrite Hwk, app_nil_r; apply R).
+      assert (Pu : forall y, In y (waiting st ++ []) -> In (wid y) used /\ In (wdl y) dls) by (rewrite app_nil_r; exact Hu).
+      refine (instant_rel c used used dls a st tau now _ _ st st [] [] [] [] R Ht Pop (r_held _ _ _ _ _ _ R) (r_cap _ _ _ _ _ _ R)
+                (r_cap0 _ _ _ _ _ _ R) Pp Hnd0 (HW _ (mle_refl _)) Hov (trivial_drained c now st Hinv Hwk) (Permutation_refl _) _ Hinv Pu).
+      intros H. now contradiction H.
+  - (* Release *)
+    cbn [sop_wf] in Hwf.
+    assert (Hinv1 : inv c (fst (step true st now (ERelease w)))) by (apply inv_step; assumption).
+    cbn [step] in Hinv1 |- *. unfold release in Hinv1 |- *.
+    destruct (mlt_any (held st) w) eqn:El; cbn [fst snd] in Hinv1 |- *.
+    + eapply (broadcast_instant c used dls prefer a s tau now (ERelease w) _ [OWarn (held st) w]
+                (Some (SRel w, ORelB (Some (held st, w)))) (mkAS mzero (a_cap0 a) (a_cap a) (a_pend a) (a_last a)) R Ht Hq).
+      * cbn [step]. unfold release. fold st. rewrite El. reflexivity.
+      * exact Hinv1.
+      * reflexivity.
+      * cbn [broadcast woken waiting]. fold st. now rewrite Hwk.
+      * reflexivity.
+      * cbn [accept_op]. rewrite (r_held _ _ _ _ _ _ R). fold st. rewrite El, !meqb_refl. reflexivity.
+      * reflexivity.
+      * cbn [a_cap broadcast cap]. apply R.
+      * apply R.
+      * reflexivity.
+    + eapply (broadcast_instant c used dls prefer a s tau now (ERelease w) _ []
+                (Some (SRel w, ORelB None)) (mkAS (msub (a_held a) w) (a_cap0 a) (a_cap a) (a_pend a) (a_last a)) R Ht Hq).
+      * cbn [step]. unfold release. fold st. rewrite El. reflexivity.
+      * exact Hinv1.
+      * reflexivity.
+      * cbn [broadcast woken waiting]. fold st. now rewrite Hwk.
+      * reflexivity.
+      * cbn [accept_op]. rewrite (r_held _ _ _ _ _ _ R). fold st. rewrite El. reflexivity.
+      * cbn [a_held broadcast held]. now rewrite (r_held _ _ _ _ _ _ R).
+      * cbn [a_cap broadcast cap]. apply R.
+      * apply R.
+      * reflexivity.
+  - (* Terminate *)
+    assert (Hinv1 : inv c (fst (step true st now ETerminate))) by (apply inv_step; [assumption | exact I]).
+    eapply (broadcast_instant c used dls prefer a s tau now ETerminate _ []
+              (Some (STerm, ONoObs)) (mkAS (a_held a) (a_cap0 a) mzero (a_pend a) (a_last a)) R Ht Hq).
+    + reflexivity.
+    + exact Hinv1.
+    + reflexivity.
+    + cbn [broadcast woken waiting]. fold st. now rewrite Hwk.
+    + reflexivity.
+    + reflexivity.
+    + cbn [a_held broadcast held]. apply R.
+    + reflexivity.
+    + apply R.
+    + reflexivity.
+  - (* Processing *)
+    assert (Pop : accept_op a now (Some (SProc, OProcB (held st))) = Some a)
+      by (cbn [accept_op]; rewrite (r_held _ _ _ _ _ _ R), meqb_refl; reflexivity).
+    assert (Pp : Permutation (a_pend a) (waiting st ++ woken st)) by (rewrite Hwk, app_nil_r; apply R).
+    assert (Pu : forall y, In y (waiting st ++ []) -> In (wid y) used /\ In (wdl y) dls) by (rewrite app_nil_r; exact Hu).
+    refine (instant_rel c used used dls a st tau now _ _ st st [] [] [] [] R Ht Pop (r_held _ _ _ _ _ _ R) (r_cap _ _ _ _ _ _ R)
+              (r_cap0 _ _ _ _ _ _ R) Pp Hnd0 (HW _ (mle_refl _)) Hov (trivial_drained c now st Hinv Hwk) (Permutation_refl _) _ Hinv Pu).
+    intros H. now contradiction H.
 Qed.
